@@ -439,12 +439,7 @@ class Gen:
         sc = scope
         if self.on("aliases"):
             if ch.chance(1, 3, "data_alias"):
-                # (pool names for data aliases not together with slots nested in slot defaults: there a sibling fill can be
-                # rendered WHILE this fill renders - through a default= alias - and, in lexical mode, sees this fill's alias
-                # because all fills of one component share one outer-context object; observed once in 180 k runs, soak seed 21;
-                # a dynamic-scoping corner outside what C03 states about aliases)
-                data_alias = ch.choice(POOL, "data_alias_pool") if (self.P.get("collide") and not self.on("nested_slots")
-                                                                    and ch.chance(2, 3, "data_alias_collide")) \
+                data_alias = ch.choice(POOL, "data_alias_pool") if (self.P.get("collide") and ch.chance(1, 2, "data_alias_collide")) \
                     else self.newvar("da")
                 keys = list(slot_decl[3]) if slot_decl else []
                 sc = dict(sc, aliases=sc["aliases"] + [[data_alias, "data", keys]])
